@@ -202,6 +202,14 @@ class Resources:
             options.append(f"--{key}={value}")
         return " ".join(options)
 
+    @staticmethod
+    def _wall_time_to_seconds(time: str) -> int:
+        """Duration of a ``[[D:]H:]MM:SS`` wall time string in seconds."""
+        seconds = 0
+        for part, factor in zip(reversed(time.split(":")), (1, 60, 3600, 86400)):
+            seconds += int(part) * factor
+        return seconds
+
     def update(self, **kwargs: Any) -> Resources:
         """Update the Resources instance with new values.
 
@@ -273,12 +281,12 @@ class Resources:
                 current_memory_gb = Resources._convert_to_gb(resources.memory)
                 if current_memory_gb > max_memory_gb:
                     max_data["memory"] = resources.memory
-            if resources.time is not None:
-                max_data["time"] = (
-                    resources.time
-                    if max_data["time"] is None
-                    else max(max_data["time"], resources.time)
-                )
+            if resources.time is not None and (
+                max_data["time"] is None
+                or Resources._wall_time_to_seconds(resources.time)
+                > Resources._wall_time_to_seconds(max_data["time"])
+            ):
+                max_data["time"] = resources.time
             if resources.partition is not None:
                 max_data["partition"] = resources.partition
 
